@@ -71,7 +71,7 @@ class Robust(Part):
                                       "faulty": (not twins) and rng.random() < 0.35, "cseed": rng.randrange(1 << 30)})
         for _ in range(6 if ctx.quick else 250):
             cases.append({"kind": "worstcase", "n": rng.randint(1, 3), "userm": rng.randint(1, 2), "sizes": None,
-                          "run": rng.choice(["nsga2", "epsmoea"]), "pop": rng.randint(2, 5), "gens": rng.randint(2, 4),
+                          "run": rng.choice(["nsga2", "epsmoea", "omopso", "smpso"]), "pop": rng.randint(2, 5), "gens": rng.randint(2, 4),
                           "cseed": rng.randrange(1 << 30)})
         return cases
 
@@ -200,9 +200,19 @@ class Robust(Part):
         # whole algorithm run with the worst-case evaluator
         if case["run"] == "nsga2":
             from artap.algorithm_NSGAII import NSGAII as A
+        elif case["run"] == "omopso":
+            from artap.algorithm_swarm import OMOPSO as A
+        elif case["run"] == "smpso":
+            from artap.algorithm_swarm import SMPSO as A
         else:
             from artap.algorithm_genetic import EpsMOEA as A
-        alg = A(problem, evaluator_type=etype)
+        if case["run"] in ("omopso", "smpso"):
+            # the swarm constructors take no evaluator type: the evaluator is attached the way artap's own gradient test does it
+            from artap.operators import WorstCaseEvaluator
+            alg = A(problem)
+            alg.evaluator = WorstCaseEvaluator(alg)
+        else:
+            alg = A(problem, evaluator_type=etype)
         alg.options['max_population_number'] = case["gens"]
         alg.options['max_population_size'] = case["pop"]
         alg.options['verbose_level'] = 0
